@@ -12,7 +12,8 @@
 (*   Inspect(lane)  the `for lane in sorted(libraries[lib])` body: mates present / equally many files *)
 (*   Finish         return the mapping | delete the ignored lanes and return | exit()                 *)
 (* P-level: LibraryListingP.tla (the clauses C_xxx), evaluated on the observation built from the final state.*)
-(* Variant: "design" | one named deviation | "impl" (all deviations found in the code, docs/X03.md):  *)
+(* Variant: "design" | one named deviation | "impl" (the deviations still in the code: D301, D302, D304) *)
+(*          | "impl_asfound" (all five found on 2026-09-28; D300, D303 repaired since), docs/X03.md:    *)
 (*   replace_verbose (D300) verbose mode rebinds `replace` to the last replacement string: the first  *)
 (*                          libraryReplace raises ValueError, or (empty replacement) nothing is replaced*)
 (*   merge_nojoin    (D301) -merge _2 glues the parts without the delimiter                           *)
